@@ -29,7 +29,7 @@ func head(b []byte, n int) []byte {
 
 func fidelity(x *mon.Ctx) {
 	e := newEnv(x)
-	sh := shapes(x.Scale(110, 2800), x.Scale(90, 2400))
+	sh := shapes(x.Scale(300, 6000), x.Scale(250, 5000))
 	for _, o := range allOps() {
 		for si, s := range sh {
 			variant := o.variants[(si+int(x.Seed%97))%len(o.variants)]
@@ -69,7 +69,7 @@ func checkHealthy(c *mon.Case, o *op, variant string, out *outcome, src *mon.Scr
 		c.Fail("mismatch", "%s %s returned neither an error nor an output", o.name, variant)
 		return nil
 	}
-	v, why := decide(o.rule, out, src.Stream)
+	v, why := decide(o.rule, out, src.Stream, minRetries > 0)
 	if v == nil {
 		c.Detail("output", out.output)
 		c.Fail("mismatch", "%s %s: secret scalar is not the first in-range 32-byte block of the random stream (rule %s): %s", o.name, variant, o.rule, why)
@@ -179,7 +179,7 @@ func judgeFailure(c *mon.Case, o *op, variant, what string, out *outcome) bool {
 func faults(x *mon.Ctx) {
 	e := newEnv(x)
 	maxJ := x.Scale(2, 4)
-	reps := x.Scale(1, 6)
+	reps := x.Scale(1, 10)
 	for _, o := range allOps() {
 		for _, variant := range o.variants {
 			for j := 0; j <= maxJ; j++ {
